@@ -420,10 +420,10 @@ func execTime(o hx.Op) string {
 		var at time.Time
 		aOK, aRest := asn1Try(in, &at, params)
 		if ok != aOK {
-			// observation (not a violation of the operative clause): encoding/asn1 accepts DER fractional
-			// seconds in GeneralizedTime ("19030314155149.5Z"), cryptobyte does not.
+			// encoding/asn1 accepts DER fractional seconds in GeneralizedTime ("19030314155149.5Z", X.690 11.7),
+			// cryptobyte rejects them: reported as its own class (KNOWN-FINDING while undecided).
 			if aOK && !ok && params == "generalized" && bytes.IndexByte(in, '.') >= 0 {
-				return "time agree=1"
+				return "time agree=0 frac"
 			}
 			return "time agree=0"
 		}
